@@ -22,6 +22,9 @@ pub struct IdenSpec {
     pub n: String,
     /// Some(k): use the run's shared `DynIden` number k (aliasing across ops and handles)
     pub slot: Option<u8>,
+    /// use sea-query's own `Alias` identifier type instead of the simulator's `SimIden`
+    #[serde(default)]
+    pub alias: bool,
 }
 
 pub fn gen_iden(r: &mut Rng) -> IdenSpec {
@@ -29,6 +32,7 @@ pub fn gen_iden(r: &mut Rng) -> IdenSpec {
     IdenSpec {
         n: NAMES[k].to_string(),
         slot: if r.pct(40) { Some(k as u8) } else { None },
+        alias: r.pct(25),
     }
 }
 
